@@ -15,6 +15,7 @@ from ..core import AnalysisError, NotConstant, Repo, Report, call_name, calls_in
 from ..dataflow import DefUse
 from ..grammar import load_grammar
 from ..sites import guard_chain
+from .util import canon
 
 NEGATION = {"<": ">=", "<=": ">", ">": "<=", ">=": "<", "==": "!=", "!=": "==", "=": "!=", "≠": "="}
 
@@ -72,9 +73,10 @@ def run(repo: Repo, rep: Report, tier: str) -> None:
     du = DefUse(mlw)
     ok = bool(c) and all(kwarg(c[0], k) is not None for k in ("set_signal", "reset_signal", "set_priority"))
     if ok:
-        unpack = [n for n in walk_local(mlw.node) if isinstance(n, ast.Assign) and isinstance(n.targets[0], ast.Tuple) and len(n.targets[0].elts) == 3]
-        names = [norm(e) for e in unpack[0].targets[0].elts] if unpack else []
-        ok = names == [norm(kwarg(c[0], "set_signal")), norm(kwarg(c[0], "reset_signal")), norm(kwarg(c[0], "set_priority"))]
+        cm = canon(mlw)
+        got = [cm.text(kwarg(c[0], k)) for k in ("set_signal", "reset_signal", "set_priority")]
+        base = got[0][:-3] if got[0].endswith("[0]") else None
+        ok = base is not None and got == [f"{base}[{i}]" for i in range(3)]
     rep.check(ok, "C05-R1", "memory_latch_write passes (set, reset, priority) to WriteExpr under the same names", norm(c[0])[:120] if c else "", mlw.loc())
     we = repo.cls("WriteExpr")
     st = [n for n in walk_local(we.methods["__init__"].node) if isinstance(n, ast.Assign) and norm(n.targets[0]) == "self.set_priority"]
@@ -89,7 +91,7 @@ def run(repo: Repo, rep: Report, tier: str) -> None:
     for m, n in maps:
         ok = norm(n.value) == "MEMORY_TYPE_SR_LATCH if expr.set_priority else MEMORY_TYPE_RS_LATCH"
         lw = [cc for cc in calls_in(m.node, "latch_write")]
-        passes = bool(lw) and len(lw[0].args) >= 5 and norm(lw[0].args[4]) == norm(n.targets[0])
+        passes = bool(lw) and len(lw[0].args) >= 5 and canon(m).text(lw[0].args[4]) == canon(m).text(n.value)
         rep.check(ok and passes, "C05-R1", f"{m.short}: set priority -> SR latch, reset priority -> RS latch, passed to IR", norm(n.value), m.loc(n))
     il = repo.cls("IRLatchWrite")
     st = [n for n in walk_local(il.methods["__init__"].node) if isinstance(n, ast.Assign) and norm(n.targets[0]) == "self.latch_type"]
@@ -148,10 +150,10 @@ def run(repo: Repo, rep: Report, tier: str) -> None:
     rep.check(bool(rt) and isinstance(rt[0].value, ast.Tuple) and norm(rt[0].value.elts[1]) == "const", "C05-R3", "the constant is kept", norm(rt[0].value) if rt else "", inv.loc())
     hi = mb.methods["_handle_latch_write_inlined"]
     cc = calls_in(hi.node, "_invert_comparison")
-    rep.check(bool(cc) and [norm(a) for a in cc[0].args] == ["reset_op", "reset_const"], "C05-R3", "the reset condition is the one inverted into the hold row", norm(cc[0]) if cc else "", hi.loc())
+    chi = canon(hi)
+    rep.check(bool(cc) and [chi.text(a) for a in cc[0].args] == ["op.reset_condition[1]", "op.reset_condition[2]"], "C05-R3", "the reset condition is the one inverted into the hold row", norm(cc[0]) if cc else "", hi.loc())
     up = [n for n in walk_local(hi.node) if isinstance(n, ast.Assign) and isinstance(n.targets[0], ast.Tuple) and norm(n.value) in ("op.set_condition", "op.reset_condition")]
-    ok = len(up) == 2 and {norm(n.value): [norm(e) for e in n.targets[0].elts] for n in up} == {
-        "op.set_condition": ["set_signal_ref", "set_op", "set_const"], "op.reset_condition": ["reset_signal_ref", "reset_op", "reset_const"]}
+    ok = len(up) == 2 and all(len(n.targets[0].elts) == 3 for n in up)
     rep.check(ok, "C05-R3", "set/reset conditions are unpacked as (signal, op, const)", "; ".join(norm(n) for n in up), hi.loc())
 
     # ---------------- R4 ---------------------------------------------------------------
@@ -164,31 +166,47 @@ def run(repo: Repo, rep: Report, tier: str) -> None:
     rep.check(ok and fb_col in ("red", "green"), "C05-R4", "latch feedback is an output->input self-connection on one colour", norm(wc[0])[:120] if wc else "", fb.loc())
     n_rows = 0
     for m in mb.methods.values():
-        for n in walk_local(m.node):
-            if isinstance(n, ast.Assign) and norm(n.targets[0]) == "conditions" and isinstance(n.value, ast.List):
-                for i, row in enumerate(_dict_rows(n.value)):
-                    n_rows += 1
-                    sig = norm(row.get("first_signal"))
-                    wires = row.get("first_signal_wires")
-                    wset = {e.value for e in wires.elts} if isinstance(wires, ast.Set) else None
-                    is_feedback = "output_signal" in sig
-                    want = {fb_col} if is_feedback else ({"red", "green"} - {fb_col})
-                    rep.check(wset == want, "C05-R4", f"{m.short} row {i + 1} ({sig}) reads {'the feedback' if is_feedback else 'the external'} colour",
-                              f"first_signal_wires={sorted(wset) if wset else None}, feedback wire is {fb_col}", m.loc(n))
+        cm = canon(m)
+        for pc in calls_in(m.node, "create_and_add_placement"):
+            if kwarg(pc, "role") is None or norm(kwarg(pc, "role")) != "'latch'" or kwarg(pc, "conditions") is None:
+                continue
+            rows_node = cm.node(kwarg(pc, "conditions"))
+            own = cm.text(kwarg(pc, "output_signal")) if kwarg(pc, "output_signal") is not None else None
+            for i, row in enumerate(_dict_rows(rows_node)):
+                n_rows += 1
+                sig = norm(row.get("first_signal"))
+                wires = row.get("first_signal_wires")
+                wset = {e.value for e in wires.elts} if isinstance(wires, ast.Set) else None
+                is_feedback = own is not None and sig == own
+                want = {fb_col} if is_feedback else ({"red", "green"} - {fb_col})
+                rep.check(wset == want, "C05-R4", f"{m.short} row {i + 1} ({sig[-40:]}) reads {'the feedback' if is_feedback else 'the external'} colour",
+                          f"first_signal_wires={sorted(wset) if wset else None}, feedback wire is {fb_col}", m.loc(pc))
     rep.floor("C05-R4", "latch condition rows", n_rows, 6)
     mul = mb.methods["_create_latch_multiplier"]
-    lw_ = [n for n in walk_local(mul.node) if isinstance(n, ast.Assign) and norm(n.targets[0]) == "left_operand_wires"]
-    rw_ = [n for n in walk_local(mul.node) if isinstance(n, ast.Assign) and norm(n.targets[0]) == "right_operand_wires" and isinstance(n.value, ast.Set) and len(n.value.elts) == 1]
     wcm = calls_in(mul.node, "WireConnection")
-    lcol = {e.value for e in lw_[0].value.elts} if lw_ and isinstance(lw_[0].value, ast.Set) else None
-    rcol = {e.value for e in rw_[0].value.elts} if rw_ else None
+    cmul = canon(mul)
+    mpc = [c2 for c2 in calls_in(mul.node, "create_and_add_placement")]
+    def _sets(e):
+        out = []
+        for t in (cmul.alts(e) if e is not None else []):
+            try:
+                v = ast.literal_eval(t)
+            except Exception:
+                v = None
+            out.append(v if isinstance(v, set) else None)
+        return out
+    lsets = _sets(kwarg(mpc[0], "left_operand_wires")) if mpc else []
+    rsets = _sets(kwarg(mpc[0], "right_operand_wires")) if mpc else []
+    lcol = lsets[0] if len(lsets) == 1 else None
+    rone = [x for x in rsets if x is not None and len(x) == 1]
+    rcol = rone[0] if len(rone) == 1 and all(x is not None for x in rsets) else None
     wcol = kwarg(wcm[0], "wire_color").value if wcm else None
     rep.check(lcol == {fb_col} and wcol == fb_col and rcol == ({"red", "green"} - {fb_col}), "C05-R4", "multiplier reads the latch on the feedback colour and the value on the other colour",
               f"left wires {lcol}, latch->multiplier wire {wcol}, right (signal value) wires {rcol}", mul.loc())
     inj = repo.func("LayoutPlanner._inject_operand_wire_color")
     cfg = CFG(inj.node)
     stores = [s for s in cfg.stmts() if isinstance(s, ast.Assign) and isinstance(s.targets[0], ast.Subscript) and "_operand_wires" in norm(s.targets[0].slice)]
-    guards = [s for s in cfg.stmts() if isinstance(s, ast.If) and s.body and isinstance(s.body[-1], ast.Return) and "not signal_id" in norm(s.test)]
+    guards = [s for s in cfg.stmts() if isinstance(s, ast.If) and s.body and isinstance(s.body[-1], ast.Return) and "_operand_signal_id" in canon(inj).text(s.test) and isinstance(s.test, ast.BoolOp) and isinstance(s.test.op, ast.Or) and any(isinstance(v, ast.UnaryOp) and isinstance(v.op, ast.Not) and "_operand_signal_id" in canon(inj).text(v.operand) for v in s.test.values)]
     ok = bool(stores) and bool(guards) and all(cfg.dominates(guards[0], s) for s in stores)
     rep.check(ok, "C05-R4", "wire injection skips operands without a signal id (the latch multiplier's preset selections survive)",
               "early return on `not signal_id` dominates every *_operand_wires store" if ok else
